@@ -24,7 +24,9 @@ RUN_MODULE = "Run.C10"
 PROPS_FILE = "Props/C10.v"
 ALLOWED_AXIOMS = []
 SOCKET_PY = "src/easynetwork/lowlevel/api_async/backend/_asyncio/stream/socket.py"
+BLOCKING_PY = "src/easynetwork/lowlevel/api_sync/endpoints/stream.py"
 ANCHORS = [
+    (SOCKET_PY, "StreamReaderBufferedProtocol"),      # whole class: _wait_for_data has @overload stubs of the same name
     (SOCKET_PY, "StreamReaderBufferedProtocol.get_buffer"),
     (SOCKET_PY, "StreamReaderBufferedProtocol.buffer_updated"),
     (SOCKET_PY, "StreamReaderBufferedProtocol.eof_received"),
@@ -38,6 +40,12 @@ ANCHORS = [
     (SOCKET_PY, "AsyncioTransportStreamSocketAdapter.recv"),
     (SOCKET_PY, "AsyncioTransportStreamSocketAdapter.recv_into"),
     ("src/easynetwork/lowlevel/api_async/backend/_asyncio/tasks.py", "TaskUtils.coro_yield"),
+    (BLOCKING_PY, "_DataReceiverImpl.receive"),
+    ("src/easynetwork/lowlevel/api_async/endpoints/stream.py", "_DataReceiverImpl.receive"),
+    ("src/easynetwork/lowlevel/api_async/endpoints/stream.py", "_BufferedReceiverImpl.receive"),
+    ("src/easynetwork/lowlevel/api_async/servers/stream.py", "_RequestReceiver.next"),
+    ("src/easynetwork/lowlevel/api_async/servers/stream.py", "_BufferedRequestReceiver.next"),
+    ("src/easynetwork/lowlevel/api_async/transports/tls.py", "_IncomingDataReader.readinto"),
 ]
 RULE = ("protocol level: every sequence of enabled labels up to length 4 (quick) / 5 (thorough) over {recv(2), "
         "recv_into(2), data(1 byte), data(3 bytes), eof, lost(None), lost(exc), cancel, wake, turn} and up to length 6 / 7 "
@@ -450,9 +458,37 @@ def detect_fixed():
     return _fixed
 
 
+_corpus_inputs = None
+
+
+def _is_corpus_input(inp):
+    global _corpus_inputs
+    if _corpus_inputs is None:
+        import json
+        from common import sx
+        d = os.path.join(runner.VERIF, "corpus", PROPERTY_ID)
+        _corpus_inputs = set()
+        for f in sorted(os.listdir(d)) if os.path.isdir(d) else []:
+            if f.endswith(".json"):
+                _corpus_inputs.add(sx.to_text(sx.from_text(json.load(open(os.path.join(d, f)))["input_sx"])))
+    from common import sx
+    return sx.to_text(inp) in _corpus_inputs
+
+
 def oracle(inp):
+    failure = _oracle(inp)
+    if failure and failure.startswith("F4:") and not _is_corpus_input(inp):
+        # F4 is reported once, through its corpus witnesses (KNOWN-FINDING while it is listed, VIOLATION otherwise);
+        # on other inputs a loss that F4 explains completely must not hide a different failure from the search
+        return None
+    return failure
+
+
+def _oracle(inp):
     if inp[0] == 0:
         return property_failure(inp[2])
+    if inp[0] == 1:
+        return blocking_failure(inp)
     if inp[0] == 2:
         labels, _obs, _delivered, _returned, packets_ok, results = run_scenario(inp[3])
         if not packets_ok:
@@ -488,6 +524,8 @@ def run_impl(inp):
         if key in _cache:
             return _cache.pop(key)
         return replay(inp[2])
+    if inp[0] == 1:
+        return run_blocking(inp[1], inp[2], inp[3], inp[4])
     if inp[0] == 2:
         key = repr(runner_norm(inp[3]))
         if key in _cache:
@@ -625,6 +663,9 @@ def cases(tier, rng, escalate):
         _cache[repr(labels)] = res
         yield dict(input=[0, 2, labels], tags=["proto", "random"] + tags, nontrivial=nontrivial)
     yield from _mode2_cases(thorough, rng)
+    for inp, origin in _blocking_cases(thorough, rng):
+        has_timeout = any(e[0] == 2 for e in inp[4]) or any(inp[3])
+        yield dict(input=inp, tags=["blocking", origin] + (["timeout-event"] if has_timeout else []), nontrivial=has_timeout)
 
 
 # =====================================================================================================================
@@ -1176,3 +1217,132 @@ def _mode2_cases(thorough, rng):
         if out[1] != out[2] and not any(o[0] == 2 for o in out[0]):
             tags.append("bytes-lost")
         yield dict(input=[2, 2, labels, scenario], tags=tags, nontrivial=any(lab[0] == L_CANCEL for lab in labels))
+
+
+# =====================================================================================================================
+# mode 1: the blocking half — StreamEndpoint.recv_packet(timeout=...) (lowlevel/api_sync/endpoints/stream.py) over a
+# scripted transport; fixed-size records so that the consumer of the model is three lines (Conc/BlockRecv.fx_next).
+#   input = [1, size, bufsize, calls, events]; call = 1 (timeout=0) | 0 (timeout=1.0);
+#   event = [0, chunk, expired] | [1] eof | [2] the transport raises TimeoutError
+# =====================================================================================================================
+class _OracleExhausted(Exception):
+    pass
+
+
+def run_blocking(size, bufsize, calls, events):
+    import time as _time
+    from common import streamcase as sc
+    from easynetwork.lowlevel.api_sync.endpoints.stream import StreamReceiverEndpoint
+    from easynetwork.lowlevel.api_sync.transports.abc import StreamReadTransport
+    from easynetwork.protocol import StreamProtocol
+
+    clock = [1000.0]
+    script = collections.deque(events)
+
+    class Scripted(StreamReadTransport):
+        def __init__(self):
+            super().__init__()
+            self.closed = False
+
+        def is_closed(self):
+            return self.closed
+
+        def close(self):
+            self.closed = True
+
+        @property
+        def extra_attributes(self):
+            return {}
+
+        def recv_into(self, buffer, timeout):
+            data = self.recv(memoryview(buffer).nbytes, timeout)
+            memoryview(buffer)[:len(data)] = data
+            return len(data)
+
+        def recv(self, bufsize_, timeout):
+            if not script:
+                raise _OracleExhausted()
+            ev = script.popleft()
+            if ev[0] == 2:
+                if timeout != float("inf"):
+                    clock[0] += timeout
+                raise TimeoutError("scripted")
+            if ev[0] == 1:
+                return b""
+            assert 0 < len(ev[1]) <= bufsize_, "a transport returns between 1 and bufsize bytes"
+            if ev[2] and timeout != float("inf"):
+                clock[0] += timeout
+            return bytes(ev[1])
+
+    saved = _time.perf_counter
+    _time.perf_counter = lambda: clock[0]
+    try:
+        ep = StreamReceiverEndpoint(Scripted(), StreamProtocol(sc.IdFixed(size)), max_recv_size=bufsize)
+        results = []
+        for tz in calls:
+            try:
+                results.append([0, bytes(ep.recv_packet(timeout=0 if tz else 1.0))])
+            except TimeoutError:
+                results.append([1])
+            except ConnectionAbortedError:
+                results.append([2])
+            except _OracleExhausted:
+                results.append([9])
+        ep.close()
+        return results
+    finally:
+        _time.perf_counter = saved
+
+
+def _blocking_cases(thorough, rng):
+    # exhaustive small scope: size 2, bufsize 2, stream of 4 distinct bytes, every chunking into 1-2 byte chunks,
+    # a timeout event / expired flag at every position, call histories of 0/1 flags
+    n = 0
+    stream = b"wxyz"
+    for cuts in itertools.product((0, 1), repeat=3):
+        chunks, cur = [], stream[:1]
+        for i, c in enumerate(cuts):
+            if c or len(cur) == 2:
+                chunks.append(cur)
+                cur = b""
+            cur += stream[i + 1:i + 2]
+        chunks.append(cur)
+        base = [[0, ch, 0] for ch in chunks]
+        variants = [base + [[1]]]
+        for i in range(len(base) + 1):
+            variants.append(base[:i] + [[2]] + base[i:] + [[1]])
+        for i in range(len(base)):
+            variants.append([[0, e[1], 1 if j == i else 0] for j, e in enumerate(base)] + [[2], [1]])
+        for evs in variants:
+            for calls in itertools.product((0, 1), repeat=3):
+                full = list(calls) + [0, 0, 0]
+                yield [1, 2, 2, full, evs], "exhaustive"
+                n += 1
+    for _ in range(2000 if thorough else 400):
+        size = rng.choice([1, 2, 3])
+        bufsize = rng.choice([1, 2, 3, 4])
+        total = rng.randint(0, 9)
+        data = bytes(rng.sample(range(65, 120), total))
+        evs, pos = [], 0
+        while pos < len(data):
+            k = rng.randint(1, bufsize)
+            evs.append([0, data[pos:pos + k], int(rng.random() < 0.25)])
+            pos += k
+            if rng.random() < 0.3:
+                evs.append([2])
+        if rng.random() < 0.7:
+            evs.append([1])
+        calls = [int(rng.random() < 0.4) for _ in range(rng.randint(1, 8))]
+        yield [1, size, bufsize, calls, evs], "random"
+
+
+def blocking_failure(inp):
+    """The blocking half of the property on the implementation: packets come out in stream order, none lost, whatever
+    the TimeoutErrors in between."""
+    _, size, bufsize, calls, events = inp[:5]
+    results = run_blocking(size, bufsize, calls, events)
+    consumed = b"".join(e[1] for e in events if e[0] == 0)
+    got = b"".join(r[1] for r in results if r[0] == 0)
+    if not consumed.startswith(got):
+        return f"UNEXPLAINED: blocking receive returned {got!r}, the transport delivered {consumed!r}"
+    return None
